@@ -310,6 +310,16 @@ pub fn run(run: &Run) {
     });
     let mut lv: Vec<LN> = lexu::u_term(&f, 1, tier == Tier::Thorough).into_iter().map(LN::Term).collect();
     lv.extend(lexu::u_sent(&f));
+    fn lex_names_ok(t: &LTerm) -> bool {
+        match t {
+            LTerm::Atom { name, .. } => name.chars().all(|c| c.is_alphanumeric() || c == '_' || c == '-'),
+            LTerm::Compound { terms, .. } | LTerm::Set { terms, .. } => terms.iter().all(lex_names_ok),
+            LTerm::Statement { subject, predicate, .. } => lex_names_ok(subject) && lex_names_ok(predicate),
+        }
+    }
+    let before = lv.len();
+    lv.retain(|x| lex_names_ok(crate::props::c02::term_of(x)));
+    run.count("lexical_values_outside_the_grammar_name_class_skipped", (before - lv.len()) as u64);
     run.count("lexical_values", lv.len() as u64);
     lv.par_iter().for_each(|x| {
         run.eval(1);
